@@ -224,7 +224,8 @@ def run_queries(chk, n_books, n_queries, cards=None, queries=None):
             members = []
             for i in range(len(cards) if cards else chk.rng.randint(2, 5)):
                 data, struct = cards[i] if cards else gen_card(chk.rng, i)
-                name = "c%d.vcf" % i
+                # the media type of a member is found from its extension, whatever its case
+                name = ("c%d.vcf", "C%d.VCF", "m%d.Vcf")[i % 3] % i
                 r = srv.request("PUT", base + name, {"Content-Type": "text/vcard"}, data)
                 if r.status not in (201, 204):
                     continue
